@@ -77,6 +77,8 @@ const CLI_DERIVES: &[&str] = &[
     "a\nb",
     "$HOME `x` \\",
     "=",
+    "Debug, Clone, Debug",
+    "Serialize, Deserialize, Serialize, Debug, PartialEq",
 ];
 
 fn decode(tapes: &Tapes) -> Scenario {
